@@ -359,6 +359,26 @@ func (e *Explorer) loadLV(s *pstate, lv *T, ty types.Type) *T {
 				return mksel(v, lv.S, ty)
 			}
 		}
+		// a whole struct some of whose fields are tracked: compose
+		if ty != nil {
+			if stt, ok := ty.Underlying().(*types.Struct); ok {
+				sub := false
+				for _, hl := range s.heapLV {
+					if hl.Op == "sel" && hl.A[0].Key() == lv.Key() {
+						sub = true
+					}
+				}
+				if sub {
+					r := &T{Op: "struct", S: types.TypeString(ty, func(*types.Package) string { return "" }), Ty: ty}
+					for i := 0; i < stt.NumFields(); i++ {
+						f := stt.Field(i)
+						r.N = append(r.N, f.Name())
+						r.A = append(r.A, e.loadLV(s, &T{Op: "sel", S: f.Name(), A: []*T{lv}, Ty: f.Type()}, f.Type()))
+					}
+					return r
+				}
+			}
+		}
 	}
 	// fresh heap read: tag with the epoch unless the field is stable
 	n := *lv
@@ -607,7 +627,7 @@ func (e *Explorer) runBlock(b *ssa.BasicBlock, pred int, s *pstate, start int) {
 		case *ssa.Lookup:
 			s.regs[in] = &T{Op: "lookup", A: []*T{e.val(s, in.X), e.val(s, in.Index)}, E: 1 + s.verAll*1000 + s.ver["[]"], Ty: in.Type()}
 		case *ssa.Convert:
-			s.regs[in] = &T{Op: "conv", S: types.TypeString(in.Type(), nil), A: []*T{e.val(s, in.X)}, Ty: in.Type()}
+			s.regs[in] = &T{Op: "conv", S: typeName(in.Type()), A: []*T{e.val(s, in.X)}, Ty: in.Type()}
 		case *ssa.ChangeType:
 			s.regs[in] = e.val(s, in.X)
 		case *ssa.ChangeInterface:
@@ -752,7 +772,7 @@ func (e *Explorer) branch(b *ssa.BasicBlock, in *ssa.If, s *pstate, start int) {
 		ns := s
 		// clone lazily only when both feasible: simple approach clones always
 		ns = s.clone()
-		if !e.assume(ns, c, pol, in.Pos()) {
+		if !e.assume(ns, c, pol, instrPos(in)) {
 			continue
 		}
 		e.edge(b, succ, ns, start)
@@ -855,7 +875,7 @@ func (e *Explorer) callEvent(s *pstate, kind string, in ssa.Instruction, c *ssa.
 	if v != nil {
 		name := ev.Method
 		if ev.Callee != nil {
-			name = ev.Callee.String()
+			name = fnKey(ev.Callee)
 		}
 		r := &T{Op: "call", S: name, A: args, Ty: v.Type()}
 		if ev.Callee == nil || !e.W.isPure(ev.Callee) {
